@@ -62,6 +62,9 @@ TABLES = [
     ('skoolkit.simulator', 'OFFSETS', (256,), lambda d: Z.signed8(d)),
     ('skoolkit.simulator', 'R1', (256,), lambda r: Z.r_inc(r, 1)),
     ('skoolkit.simulator', 'R2', (256,), lambda r: Z.r_inc(r, 2)),
+    ('skoolkit.loadtracer', 'DEC', (2, 256), lambda c, v: Z.dec8(v, c)),
+    ('skoolkit.loadtracer', 'DEC0', (256,), lambda v: Z.dec8(v, 0)),
+    ('skoolkit.loadtracer', 'INC0', (256,), lambda v: Z.inc8(v, 0)),
     ('skoolkit.cmiosimulator', 'DELAYS_48K', (69888,), lambda t: Z.ula_delay_at(48, t)),
     ('skoolkit.cmiosimulator', 'DELAYS_128K', (70908,), lambda t: Z.ula_delay_at(128, t)),
 ]
